@@ -31,9 +31,9 @@ func (m f7Meta) mustAccept() bool {
 		return false
 	}
 	if m.HasRecv {
-		return in(m.Recv, "r", "x1")
+		return in(m.Recv, "r", "x1", "e", "i")
 	}
-	return in(m.Src, "", "s", "é", "_") && in(m.Arg, "", "n", "_")
+	return in(m.Src, "", "s", "é", "_", "e", "i") && in(m.Arg, "", "n", "_")
 }
 
 const f7Decls = `type NS struct {
@@ -94,8 +94,8 @@ var f7MemberNotes = [][]string{
 // operand naming: (receiver name or "", source parameter name or "", further parameter name or "", style, reverse, error result)
 // (names that shadow the USER's own types or packages - `D *S`, `ext *S` - are the user's clash, DESIGN §11; the
 // names below clash, if at all, with names the generator invents)
-var f7Recv = []string{"r", "x1", "my_pet", "_", "_r", "é", "type", "dst", "src", "err", "arg0", "1x", "r.x"}
-var f7SrcNames = []string{"", "s", "_", "dst", "src", "err", "arg0", "é"}
+var f7Recv = []string{"r", "x1", "my_pet", "_", "_r", "é", "type", "dst", "src", "err", "arg0", "1x", "r.x", "e", "i"}
+var f7SrcNames = []string{"", "s", "_", "dst", "src", "err", "arg0", "é", "e", "i"}
 var f7ArgNames = []string{"", "n", "_", "dst", "src", "err", "s"}
 
 func familyIdents() []*scen.Cell {
@@ -111,7 +111,8 @@ func familyIdents() []*scen.Cell {
 				Meta: f7Meta{Kind: "members", Variant: strings.Join(ns, " ; ")}})
 		}
 	}
-	decls := "type S struct {\n\tA int\n\tB string\n}\n\ntype D struct {\n\tA int\n\tB string\n}\n"
+	// (slice members: the copy loops declare i and e - two more names the generator invents)
+	decls := "type MyInt int\n\ntype S struct {\n\tA int\n\tB string\n\tL []int\n\tM []*int\n}\n\ntype D struct {\n\tA int\n\tB string\n\tL []MyInt\n\tM []*int\n}\n"
 	// receiver names
 	for ri, r := range f7Recv {
 		for style := 0; style < 2; style++ {
@@ -120,7 +121,7 @@ func familyIdents() []*scen.Cell {
 					continue
 				}
 				for merr := 0; merr < 2; merr++ {
-					notes := []string{":recv " + r}
+					notes := []string{":recv " + r, ":typecast"}
 					if style == 1 {
 						notes = append(notes, ":style arg")
 					}
@@ -150,7 +151,7 @@ func familyIdents() []*scen.Cell {
 						continue
 					}
 					for merr := 0; merr < 2; merr++ {
-						var notes []string
+						notes := []string{":typecast"}
 						if style == 1 {
 							notes = append(notes, ":style arg")
 						}
